@@ -11,7 +11,7 @@ LEVEL = "model_checking"
 
 MENU_Q = [(0.0, False), (2 * U, False), (0.0, True), (1.5 * U, True)]
 MENU_T = [(m, ri) for ri in (False, True)
-          for m in (0.0, 0.5 * U, U, 1.5 * U, 2 * U, 3 * U, 4 * U, 8 * U, 40 * U)]
+          for m in (0.0, 0.5 * U, 1.5 * U, 2 * U, 4 * U, 40 * U)]
 
 
 def plan(tier):
@@ -19,7 +19,7 @@ def plan(tier):
         regimes = [("dense", 1, 5), ("bounded", 3, 6, 7), ("near", 2, 3), ("far", 1, 4)]
         menu = MENU_Q
     else:
-        regimes = [("dense", 1, 7), ("bounded", 3, 8, 11), ("near", 2, 4), ("far", 1, 6)]
+        regimes = [("dense", 1, 6), ("bounded", 3, 7, 9), ("near", 2, 3), ("far", 1, 5)]
         menu = MENU_T
     desc, total = pairs.describe_regimes(regimes, 2)
     return {
